@@ -242,6 +242,7 @@ WORKLOADS = [
     Workload("gauss", w_gauss, 1500, 60000),
     Workload("gauss_inverse", w_gauss_inverse, 1500, 60000),
     Workload("errors", w_errors, 30, 600),
+    Workload("repo_tests", lambda ctx, rng, i: core.run_repo_tests(ctx), 1, 1, budget=1800, tiers=("thorough",)),
 ]
 
 
